@@ -17,6 +17,11 @@ CHECK = {
     "level_note": "background jobs run freely (gates open); the tag table is read through a closure posted to the service loop; the 15 s watchdog is three orders of magnitude above a normal call",
     "assumptions": ["one UpdateTag operation per call, as the HTTP front end issues them"],
     "extra_builds": [{"pkg": "internal/verif/convbin", "out": "convbin"}],
+    # the periodic tag event worker ticks once per second; the build derives a 5 ms tick from the current source so that
+    # its closure runs between the steps of every history (same code path, scaled interval)
+    "rewrites": [
+        {"file": "internal/index/manager/manager.go", "pattern": r"tagUpdateEventInterval = time\.Second \* 1\b", "replacement": "tagUpdateEventInterval = time.Millisecond * 5"},
+    ],
     "campaigns": [
         {"test": "TestVerifC11", "checks": {"quick": 1200, "thorough": 60000}, "death_is_violation": True,
          "timeout": {"quick": 600, "thorough": 5400}},
